@@ -15,7 +15,7 @@ import random
 from vlib import harness
 
 WORDS = ["a", "-x", "--long", "--k=v", "-n1", "a/b.c", "./x", "../y", "a:b", "a,b", "+x", "%d", "k=v", "12", "1.5", "x-y", "x_y", "a.b", "*.py", "~/z", "\u00fcn\u00ef", "@", "a@b", "a+b", "x==y", "-", "--", "http://h/p?q=1", "{a,b}", "a[1]", "-I/usr/include", "--color=auto", "-", "2", "None", "if", "in", "is", "not", "True"]
-STRS = ["'s p'", '"d q"', "r'\\raw'", "f'{val}'", "'it''s'", '"$HOME"', "''", "'''t'''", "'a;b'", "'&&'", '"|"', "'#x'"]
+STRS = ["'s p'", '"d q"', "r'\\raw'", "f'{val}'", "'it''s'", '"$HOME"', "''", "'''t'''", "'a;b'", "'&&'", '"|"', "'#x'", "\'\'\'m1\nm2\'\'\'", '"""t1\n  t2"""']
 SUBS = ["$HOME", "${'HO'+'ME'}", "@(val)", "@([1,2])", "$(cmd9 q)", "@$(cmd9 q)", "pre@(val)post", "$HOME/x"]
 REDIR = ["> out.txt", ">> out.txt", "2> err.txt", "e>o", "2>&1", "a> all.txt", "< in.txt", "o> o.txt e> e.txt"]
 
@@ -34,10 +34,11 @@ KEYWORDS = {"if", "in", "is", "not", "None", "True"}
 OPSTRS = {"'a;b'", "'&&'", '"|"', "'#x'"}
 
 
-RISKS = ["--k=v", "lone-dash", "keyword-word", "operator-in-string", "at-word", "brace-word", "paren-group", "background", "one-line-suite"]
+RISKS = ["--k=v", "lone-dash", "keyword-word", "operator-in-string", "at-word", "brace-word", "paren-group", "background", "one-line-suite", "multiline-string", "multiline-string"]
+MLSTRS = ["'''m1\nm2'''", '"""t1\n  t2"""']
 _RISKY_WORDS = {"--k=v", "--color=auto", "-", "--", "@", "{a,b}"} | KEYWORDS
 SAFE_WORDS = [w for w in WORDS if w not in _RISKY_WORDS]
-SAFE_STRS = [w for w in STRS if w not in OPSTRS and w != "'it''s'"]
+SAFE_STRS = [w for w in STRS if w not in OPSTRS and w != "'it''s'" and "\n" not in w]
 
 
 class Gen:
@@ -55,6 +56,8 @@ class Gen:
             return self.r.choice({"--k=v": ["--k=v", "--color=auto"], "lone-dash": ["-", "--"], "keyword-word": sorted(KEYWORDS), "at-word": ["@"], "brace-word": ["{a,b}"]}[self.risk])
         if self.risk == "operator-in-string" and r < 0.25:
             return self.r.choice(sorted(OPSTRS))
+        if self.risk == "multiline-string" and r < 0.2:
+            return self.r.choice(MLSTRS)
         if r < 0.6:
             return self.r.choice(SAFE_WORDS)
         if r < 0.8:
@@ -83,6 +86,8 @@ class Gen:
     def placement(self):
         if self.risk == "one-line-suite":
             return "one-line-suite"
+        if self.risk == "multiline-string" and self.r.random() < 0.5:
+            return self.r.choice(["three-on-a-line-after-python-parsable-head", "three-on-a-line-in-block"])
         return self.r.choice(["top", "top", "after-semicolon", "if-body", "nested-tab-indent", "def-body-2-space", "try-body", "two-on-a-line", "backslash-continuation", "with-body-depth3", "after-python-statement"])
 
 
@@ -107,6 +112,8 @@ def render(t, explicit, repair=()):
                 ws = ["at" if w == "@" else w for w in ws]
             if "brace-word" in repair:
                 ws = ["ab" if w == "{a,b}" else w for w in ws]
+            if "multiline-string" in repair:
+                ws = [w.replace("\n", " ") for w in ws]
             words.append(" ".join(ws))
         s = " | ".join(words) + (" &" if t[2] and "background" not in repair else "")
         return "![" + s + "]" if explicit else s
@@ -114,8 +121,9 @@ def render(t, explicit, repair=()):
     return "(" + s + ")" if (t[4] and "paren-group" not in repair) else s
 
 
-def place(where, b, e, cont=None):
+def place(where, b, e, cont=None, repair=()):
     w = lambda pre, post="": (pre + b + post + "\n", pre + e + post + "\n")
+    nl = " " if "multiline-string" in repair else "\n"
     if where == "top":
         return w("")
     if where == "after-semicolon":
@@ -132,6 +140,12 @@ def place(where, b, e, cont=None):
         return w("if cond: ")
     if where == "two-on-a-line":
         return (b + "; " + b + "\n", e + "; " + e + "\n")
+    if where == "three-on-a-line-after-python-parsable-head":
+        # a head that is also a Python expression (an unbound name, `name -x`), then `;`-joined commands, the last one with a
+        # multi-line triple-quoted argument
+        return ("cmd8; " + b + " ; cmd7 w \'\'\'m1" + nl + "m2\'\'\'\n", "![cmd8]; " + e + " ; ![cmd7 w \'\'\'m1" + nl + "m2\'\'\']\n")
+    if where == "three-on-a-line-in-block":
+        return ("if cond:\n    cmd8 -x; " + b + "; cmd7 \"\"\"t1" + nl + "  t2\"\"\"\n", "if cond:\n    ![cmd8 -x]; " + e + "; ![cmd7 \"\"\"t1" + nl + "  t2\"\"\"]\n")
     if where == "with-body-depth3":
         return w("with ctxm:\n    while cond:\n        if cond:\n            ", "\n            break")
     if where == "after-python-statement":
@@ -184,6 +198,8 @@ def tree_features(t, where):
         f.append("background")
     if where == "one-line-suite":
         f.append("one-line-suite")
+    if any("\n" in w for w in words) or where.startswith("three-on-a-line"):
+        f.append("multiline-string")
     return f
 
 
@@ -367,7 +383,10 @@ class C03:
             v2 = self.judge_pair(tree, w2, case.get("cont"), rec, repair=rep)
             if v2 is not None and v2[0] == "ok":
                 cause = "+".join(feats)
-        if cause:
+        if cause == "multiline-string":
+            # keyed by placement: a multi-line argument is fine in some positions and mis-wrapped in others
+            rec.violation(f"{kind}/multiline-string@{where}", case, detail)
+        elif cause:
             rec.violation(f"{kind}/{cause}", case, detail)
         else:
             rec.violation(f"{kind}/unexplained/{where}", case, detail)
@@ -375,7 +394,7 @@ class C03:
     def judge_pair(self, tree, where, cont, rec, repair=(), count=False):
         """-> None (not judgeable) | ('ok', None) | (kind, detail)"""
         b, e = render(tree, False, repair), render(tree, True, repair)
-        B, E = place(where, b, e, cont)
+        B, E = place(where, b, e, cont, repair)
         nullrec = rec if count else _Null()
         re_ = self.parse(E, nullrec)
         if re_[0] != "ok":
@@ -438,7 +457,13 @@ class C03:
         key = r[1].split(":")[0] if kind == "CRASH" else kind
         msgkey = r[1] if kind == "CRASH" else None
 
+        import time as _time
+
+        t_end = _time.time() + 30  # minimisation only shortens the witness (the mechanism does not depend on it): bounded
+
         def still(t):
+            if _time.time() > t_end:
+                return False
             q = self.parse(t, _Null(), alarm_s=10)
             return q[0] == kind and (kind != "CRASH" or q[1] == msgkey)
 
@@ -493,11 +518,13 @@ class C03:
             if i < 2:
                 rec.sample(dict(case, B=place(where if not (where == "backslash-continuation" and has_chain(t)) else "top", render(t, False), render(t, True), case["cont"])[0]), "pair")
             seeds.append(place("top", render(t, False), render(t, True))[0])
+            rec.begin(case)
             self.run_case(case, rec)
         for i, s in enumerate(self.fuzz_sources(rng, sh["fuzz"], seeds)):
             case = {"kind": "fuzz", "src": s}
             if i < 2:
                 rec.sample(case, "fuzz")
+            rec.begin(case)
             self.run_case(case, rec)
         rec.count("max_token_ratio_permille_of_bound", int(1000 * self.maxratio / 60))
 
